@@ -290,7 +290,8 @@ def run_shard(shard):
     return acc.dump()
 
 
-MULTI_LINE_SPANS = ["x = (a\n b)\n", "f(a\n  b)\n", "f(\n  a)(\n  b) = 1\n", "x = [1,\n 2 3]\n", "x = \'\'\'a\nb\'\'\' \'c\' d\n", "foo(a,\n  b) = 3\n", "print(a\n b\n c)\n", "x = {1:\n 2 3:\n 4}\n",
+MULTI_LINE_SPANS = ["del x, foo(\n)\n", "y = 1; \"\"\"a\nb\"\"\" = 2\n", "z = (foo(\n) := 1)\n", "x = f\"\"\"\\x\n\"\"\"\n", "aaaa, bbbb, f(\n) = 1\n", "for q, (c.d)(\n) in y: pass\n", "with a as b, cccc(\n): pass\n",
+                    "long_name = [1, 2]; (x.y)(\n 1) += 2\n", "import a; x = 1; lambda: (yield\n) = 3\n","x = (a\n b)\n", "f(a\n  b)\n", "f(\n  a)(\n  b) = 1\n", "x = [1,\n 2 3]\n", "x = \'\'\'a\nb\'\'\' \'c\' d\n", "foo(a,\n  b) = 3\n", "print(a\n b\n c)\n", "x = {1:\n 2 3:\n 4}\n",
                     "(a,\n b,\n c) += 1\n", "with (a as b,\n c as d) e: pass\n", "x = f(a for a in b,\n c)\n", "def f(a,\n b=1,\n c): pass\n", "x = $(ls\n -l) = 2\n", "[a\n for a in b\n if c] = 1\n"]
 
 VERSION_GATED = [
